@@ -151,37 +151,51 @@ func starts_with(xs []MalType, sym string) bool {
 	return false
 }
 
-func qq_loop(xs []MalType) MalType {
+func qq_loop(xs []MalType) (MalType, error) {
 	acc := NewList()
 	for i := len(xs) - 1; 0 <= i; i -= 1 {
 		elt := xs[i]
 		switch e := elt.(type) {
 		case List:
 			if starts_with(e.Val, "splice-unquote") {
+				if len(e.Val) < 2 {
+					return nil, lisperror.NewLispError(errors.New("splice-unquote requires an argument"), e)
+				}
 				acc = NewList(Symbol{Val: "concat"}, e.Val[1], acc)
 				continue
 			}
 		default:
 		}
-		acc = NewList(Symbol{Val: "cons"}, quasiquote(elt), acc)
+		qq, err := quasiquote(elt)
+		if err != nil {
+			return nil, err
+		}
+		acc = NewList(Symbol{Val: "cons"}, qq, acc)
 	}
-	return acc
+	return acc, nil
 }
 
-func quasiquote(ast MalType) MalType {
+func quasiquote(ast MalType) (MalType, error) {
 	switch a := ast.(type) {
 	case Vector:
-		return NewList(Symbol{Val: "vec"}, qq_loop(a.Val))
+		qq, err := qq_loop(a.Val)
+		if err != nil {
+			return nil, err
+		}
+		return NewList(Symbol{Val: "vec"}, qq), nil
 	case HashMap, Symbol:
-		return NewList(Symbol{Val: "quote"}, ast)
+		return NewList(Symbol{Val: "quote"}, ast), nil
 	case List:
 		if starts_with(a.Val, "unquote") {
-			return a.Val[1]
+			if len(a.Val) < 2 {
+				return nil, lisperror.NewLispError(errors.New("unquote requires an argument"), a)
+			}
+			return a.Val[1], nil
 		} else {
 			return qq_loop(a.Val)
 		}
 	default:
-		return ast
+		return ast, nil
 	}
 }
 
@@ -444,9 +458,12 @@ func EVAL(ctx context.Context, ast MalType, env EnvType) (res MalType, e error) 
 		case "quote": // '
 			return a1, nil
 		case "quasiquoteexpand":
-			return quasiquote(a1), nil
+			return quasiquote(a1)
 		case "quasiquote": // `
-			ast = quasiquote(a1)
+			ast, e = quasiquote(a1)
+			if e != nil {
+				return nil, e
+			}
 		case "defmacro":
 			fn, e := EVAL(ctx, a2, env)
 			if e != nil {
